@@ -542,6 +542,23 @@ def run(p: Program, rep: Report, tier: str) -> None:
     rep.require_instances("R18.6", 3)
 
 
+def _wsgi_query(qs: str):
+    """PEP 3333 hands QUERY_STRING over as a native string holding the request's bytes as Latin-1 code points; the URL text (like the
+    path next to it, and like the ASGI side's bytes.decode()) is those bytes read as UTF-8. True: the argument is
+    QUERY_STRING.encode('latin-1') (bytes, decoded by _build_url) or that followed by .decode('utf-8'); False: the native string itself
+    (raw non-ASCII query bytes come out as mojibake and differ from the ASGI URL) or another value; None: another transcoding."""
+    import re as _re
+    base = "environ.get('QUERY_STRING', '')"
+    if not qs.startswith(base):
+        return False
+    rest = qs[len(base):]
+    if rest == "":
+        return False
+    if _re.fullmatch(r"\.encode\('(latin-?1|iso-?8859-?1)'\)(\.decode\((|'utf-?8')\))?", rest, _re.I):
+        return True
+    return None
+
+
 def gateway_url_branches(p: Program, rep: Report, rule: str) -> None:
     """The scope branch and the environ branch of URL.__init__ hand the corresponding gateway values to one builder
     (C18 R18.1; reused by C04 for 'the same request gives the same URL on both interfaces')."""
@@ -589,12 +606,14 @@ def gateway_url_branches(p: Program, rep: Report, rule: str) -> None:
             exp = {
                 "scheme": sch == "environ['wsgi.url_scheme']",
                 "path": pth.startswith("(environ.get('SCRIPT_NAME', '') + environ.get('PATH_INFO', ''))"),
-                "query": qs.startswith("environ.get('QUERY_STRING', '')"),
+                "query": _wsgi_query(qs),
                 "server": srv == "(environ['SERVER_NAME'], int(environ['SERVER_PORT']))",
                 "host": host == "environ.get('HTTP_HOST', None)",
             }
         for k, ok in exp.items():
-            if ok:
+            if ok is None:
+                rep.undecide(rule, f"{which}: the {k} argument of _build_url is {dict(scheme=sch, path=pth, query=qs, server=srv, host=host)[k][:80]}: how the gateway's native string is transcoded is not recognised")
+            elif ok:
                 rep.ok(rule, f"{which}: {k} argument of _build_url is the gateway's {k}")
             else:
                 rep.violation(rule, construct(init, text=f"{which} branch: {k} = {dict(scheme=sch, path=pth, query=qs, server=srv, host=host)[k][:70]}"), where(init),
